@@ -779,6 +779,19 @@ func c05Garbage(cell c05cell, sh c05shape, name string) []c05garbage {
 			add("object-pair-without-equals", prefix+"role")
 		}
 	}
+	if sh.Name == "array-integer" && cell.In != "query" && (!explode || style == "simple") {
+		// comma lists with an empty item: no list of integers is written that way
+		prefix := ""
+		switch style {
+		case "label":
+			prefix = "."
+		case "matrix":
+			prefix = ";" + name + "="
+		}
+		add("array-empty-item-inside", prefix+"1,,3")
+		add("array-empty-item-at-end", prefix+"3,4,")
+		add("array-empty-item-in-front", prefix+",1,2")
+	}
 	if style == "deepObject" && sh.Kind == "deep" {
 		add("deep-non-integer-index", name+"[arr][x]=1")
 		add("deep-negative-index", name+"[arr][-1]=1")
